@@ -161,6 +161,11 @@ class _Timeout(Exception):
     pass
 
 
+class _Abort(BaseException):
+    """Three cases ran into the watchdog: stop this worker (the run is inconclusive, exit 2 unless a
+    violation was already recorded)."""
+
+
 def _alarm(signum, frame):
     raise _Timeout()
 
@@ -168,11 +173,14 @@ def _alarm(signum, frame):
 def run_case(prop, case, acc, keep_sample=True):
     """Run prop.check on one case under the watchdog; harness bugs are recorded, never raised."""
     signal.signal(signal.SIGALRM, _alarm)
-    signal.alarm(int(os.environ.get("VERIF_CASE_TIMEOUT", "90")))
+    signal.alarm(int(os.environ.get("VERIF_CASE_TIMEOUT", "30")))
     try:
         res = prop.check(case)
     except _Timeout:
         acc.harness_errors.append(("watchdog", canon(case)[:3000]))
+        acc.extra["watchdog_expiries"] = acc.extra.get("watchdog_expiries", 0) + 1
+        if acc.extra["watchdog_expiries"] >= 3:
+            raise _Abort()
         return None
     except Exception:
         acc.harness_errors.append((traceback.format_exc()[-3000:], canon(case)[:3000]))
@@ -211,6 +219,12 @@ def load_prop(pid):
 def _worker(args):
     pid, tier, seed, w, n = args
     bind_repo()
+    try:
+        import resource
+        lim = int(os.environ.get("VERIF_MEM_GB", "6")) * 2 ** 30
+        resource.setrlimit(resource.RLIMIT_AS, (lim, lim))
+    except Exception:
+        pass
     import hypothesis
     from hypothesis import HealthCheck, Phase, given, settings
     prop = load_prop(pid)
@@ -233,6 +247,9 @@ def _worker(args):
 
         try:
             test()
+        except _Abort:
+            acc.harness_errors.append(("worker stopped after three watchdog expiries", ""))
+            break
         except Exception:
             acc.harness_errors.append(("hypothesis run failed: " + traceback.format_exc()[-3000:], ""))
             break
